@@ -1,9 +1,12 @@
 (* Ser/Cfg.v -- the configurations of the codec model:
-   [cfg_today sz]  the tree being checked (name table generated from it),
-   [cfg_pinned sz] the code as pinned (the 24 literals try_from_str accepted
-                   when this development was written; used only by the
-                   `refuted' theorems so that they stay true after a repair),
-   [cfg_fixed sz]  the code with the candidate repairs applied. *)
+   [cfg_today sz]  the tree being checked = the repaired code (fix commits
+                   40160da scope flags, 3cf46ce built-in names, 076760b
+                   pre-allocation cap, 4b8e673 validation on load), with the
+                   name table generated from the tree;
+   [cfg_pinned sz] the code as it was pinned (inverted scope flags, the 24
+                   literals try_from_str accepted then, no cap, no
+                   validation): kept for the theorems that document the
+                   repaired defects. *)
 From FendV Require Import Base.Prelude Ser.Generated.BuiltinNames Ser.Codec.
 Open Scope N_scope.
 
@@ -15,13 +18,12 @@ Definition from_names_pinned : list bytes :=
    B"sinh"; B"cosh"; B"tanh"; B"asinh"; B"acosh"; B"atanh"; B"ln"; B"log2"; B"log10";
    B"base"; B"sample"; B"not"; B"conjugate"; B"real"; B"imag"; B"fibonacci"].
 
-(* the five literals as_str writes and try_from_str does not read (finding
-   C12 builtin_name_missing) *)
+(* the five literals as_str wrote and try_from_str did not read in the pinned
+   code (finding C12 builtin_name_missing, fixed by 3cf46ce) *)
 Definition known_missing_names : list bytes := [B"mean"; B"arg"; B"floor"; B"ceil"; B"round"].
 
-(* candidate repair C14_prealloc_cap: with_capacity(len.min(PREALLOC_CAP)) *)
+(* serialize::prealloc: with_capacity(len.min(MAX_PREALLOC)) *)
 Definition prealloc_cap : N := 1024.
 
-Definition cfg_today (sz : sizes) : cfg := mkCfg true from_names None false sz.
+Definition cfg_today (sz : sizes) : cfg := mkCfg false from_names (Some prealloc_cap) true sz.
 Definition cfg_pinned (sz : sizes) : cfg := mkCfg true from_names_pinned None false sz.
-Definition cfg_fixed (sz : sizes) : cfg := mkCfg false as_names (Some prealloc_cap) true sz.
